@@ -11,7 +11,7 @@ Monitor    : the property evaluated directly on the implementation's outputs (id
 Encoding of a history (list of ints), mirrored in coq/seqreg/Run.v and p_c05.rs:
    npre (sig kind tag)*npre  item*     kind 0 dfl | 1 ign | 2 user handler | 3 user handler (SA_SIGINFO) | 4, 5 = 2, 3 with SA_RESETHAND|SA_NODEFER and a mask (probe only)
    item: 1 sig tag register | 2 sig tag register_sigaction | 3 sig id unregister | 4 sig unregister_signal
-         5 sig raise | 6 sig report disposition
+         5 sig raise | 6 sig report disposition | 7 sig low_level::emulate_default_handler(sig) (ignore / stop kinds; no effect on the registry)
 """
 import glob, hashlib, json, os, random
 import common
@@ -44,7 +44,7 @@ ASSUME = ['sequential callers (one thread, no delivery during a registry call); 
 # ------------------------------------------------------------------------------------------
 def pools(consts):
     names = ['SIGUSR1', 'SIGUSR2', 'SIGHUP', 'SIGWINCH', 'SIGURG', 'SIGCHLD', 'SIGALRM', 'SIGTERM', 'SIGINT', 'SIGQUIT',
-             'SIGPIPE', 'SIGIO', 'SIGPROF', 'SIGVTALRM', 'SIGXCPU', 'SIGXFSZ', 'SIGCONT', 'SIGSYS']
+             'SIGPIPE', 'SIGIO', 'SIGPROF', 'SIGVTALRM', 'SIGXCPU', 'SIGXFSZ', 'SIGCONT', 'SIGSYS', 'SIGTSTP', 'SIGTTIN', 'SIGTTOU']
     base = [consts[n] for n in names]
     ignored = {consts['SIGWINCH'], consts['SIGURG'], consts['SIGCHLD'], consts['SIGCONT']}
     forbidden = [consts[n] for n in ('SIGKILL', 'SIGSTOP', 'SIGILL', 'SIGFPE', 'SIGSEGV')]
@@ -98,8 +98,15 @@ def gen_history(rnd, consts, tier, maxlen):
             # (a SA_RESETHAND foreign handler is consumed by a delivery that precedes the take-over)
             if s in taken or pre[s] in (1, 2, 3) or (s in ignored and pre[s] < 4):
                 h += [5, s]
-        else:
+        elif r < 0.97:
             h += [6, s]
+        else:
+            # another part of the library at work on a signal whose default action does not end the process (ignore / stop kinds):
+            # the registry and the library's handler must not notice
+            cands = [x for x in sigs if x in ignored or x in (20, 21, 22)]
+            if cands:
+                x = rnd.choice(cands)
+                h += [7, x, 6, x]
     for s in sigs:      # final report and a final delivery of everything that is safe to raise
         h += [6, s]
         if s in taken or pre[s] in (1, 2, 3) or (s in ignored and pre[s] < 4):
@@ -145,6 +152,8 @@ def parse_records(toks, impl):
                 recs.append(('disp', toks[p + 1], toks[p + 2], toks[p + 3], toks[p + 4])); p += 5
             else:
                 recs.append(('disp', toks[p + 1], toks[p + 2], toks[p + 3], None)); p += 4
+        elif c == 7:
+            recs.append(('emu', toks[p + 1])); p += 2
         elif c == 8:
             recs.append(('inexpressible',)); p += 1
         elif c == 9:
@@ -256,6 +265,9 @@ def monitor(h, recs, dup, libaddr, flags_expected):
             if sig in last_ran and last_ran[sig] != rec[1]:
                 bad.append(('independent', '%s ran %r but ran %r before although only other signals were operated on in between' % (where, rec[1], last_ran[sig])))
             last_ran[sig] = rec[1]
+        elif code == 7:
+            if rec != ('emu', 1):
+                bad.append(('emulate', '%s gave %r' % (where, rec)))
         elif code == 6:
             if rec[0] != 'disp':
                 bad.append(('disposition', '%s gave %r' % (where, rec)))
